@@ -65,6 +65,9 @@ def run(ctx) -> None:
     ctx.guard("C03.step-guard", step_guard_distribute)
     ctx.guard("C03.validate-before-append", validate_before_append, "C03.validate-before-append")
     ctx.guard("C03.exit", exit_saves, "C03.exit")
+    # a refused step ends the operation: nothing (finally: return, suppress) turns the refusal into a normal return after part of
+    # the steps were booked
+    ctx.reuse("C03.tracking-rejects", c02.no_swallow)
 
 
 def worklist_methods(ctx, dev):
